@@ -94,6 +94,21 @@ int main(int argc, char **argv){
       bool has_constants = !(grid.getRule() == rule_clenshawcurtis0 || grid.getRule() == rule_localp0);
       if (has_constants) fpsym_eq(sw, 1.0, scale, "interpolation weights sum to one");
     }
+    if (grid.isFourier()){
+      // Fourier weights at a symbolic x are outside the claim; at CONCRETE points with a coordinate exactly on a node, on the boundary of the
+      // domain (the periodic image of node 0) or inside, the weights are numbers and must reproduce every mode for all coefficient vectors
+      std::vector<std::vector<double>> probes;
+      for (int i : {0, n / 2, n - 1}) probes.push_back(pointAt(pts, d, i));                                                             // grid nodes
+      { std::vector<double> c(d); for (int j=0;j<d;j++) c[j] = domHi(g, j); probes.push_back(c); for (int j=0;j<d;j++) c[j] = (j % 2) ? domLo(g, j) : domHi(g, j); probes.push_back(c); }   // corners
+      { std::vector<double> c = pointAt(pts, d, n - 1); c[0] = domLo(g, 0) + 0.3719 * (domHi(g, 0) - domLo(g, 0)); probes.push_back(c); }    // shares coordinates with a node
+      { std::vector<double> c(d); for (int j=0;j<d;j++) c[j] = domLo(g, j) + (0.2113 + 0.17 * j) * (domHi(g, j) - domLo(g, j)); probes.push_back(c); }   // interior
+      for (auto &c : probes){
+        std::vector<double> w = grid.getInterpolationWeights(c);
+        double s = 0, sw = 0; for (int i=0;i<n;i++){ s += w[i] * vals[(size_t) i * outs]; sw += w[i]; }
+        fpsym_eq(s, p(c), scale, "fourier: interpolation weights at nodes / boundary / interior points reproduce every mode of the grid");
+        fpsym_eq(sw, 1.0, scale, "fourier: interpolation weights sum to one");
+      }
+    }
   } else {
     // derivative of a reproduced function: differentiate(x) must equal the exact derivative of the test function itself
     std::vector<double> jac; grid.differentiate(x, jac);
